@@ -7,7 +7,7 @@ PID = "C05"
 GEN = ["primality"]
 LEAN = ["Ymq.Props.C05", "Ymq.Props.C05Sched"]
 AUDIT = "Ymq.Audit.C05"
-THEOREMS = ['Ymq.C05.abort_never_wrong_product', 'Ymq.C05.abort_consistent', 'Ymq.C05.abort_stops', 'Ymq.C05.abort_bounded', 'Ymq.C05.abort_before_start']
+THEOREMS = ['Ymq.C05.abort_never_wrong_product', 'Ymq.C05.abort_consistent', 'Ymq.C05.abort_consistent_of_input', 'Ymq.C05.abort_stops', 'Ymq.C05.abort_bounded', 'Ymq.C05.abort_before_start']
 PROFILES = ["release", "chk"]
 TIMEOUT = 120.0
 LAT_BOUND_MS = 15000
